@@ -107,6 +107,24 @@ pub fn image(len: usize, fill: &str, seed: u64) -> Vec<u8> {
                         }
                     }
                 }
+                // whole aligned 64 KiB blocks of erased (or zero) cells between programmed ones
+                "blank-block" => {
+                    let blocks = len / 65536;
+                    if blocks >= 3 {
+                        let b = if r.chance(2, 3) { 0xFF } else { 0x00 };
+                        let k = r.range(1, (blocks - 1) as u64 - 0) as usize;
+                        let k = k.min(blocks - 2).max(1);
+                        for x in v[k * 65536..(k + 1) * 65536].iter_mut() {
+                            *x = b;
+                        }
+                        if blocks >= 5 && r.chance(1, 2) {
+                            let k2 = (k + 2).min(blocks - 2);
+                            for x in v[k2 * 65536..(k2 + 1) * 65536].iter_mut() {
+                                *x = b;
+                            }
+                        }
+                    }
+                }
                 // bytes that are line ends, the record mark, EOF marks, in text terms
                 "lineends" => {
                     let alphabet = [0x0Au8, 0x0D, 0x3A, 0x1A, 0x00, 0xFF, 0x0A, 0x0D];
@@ -222,14 +240,14 @@ pub fn scenario_shape(tier: &str, base_seed: u64, g: u64) -> Scenario {
     let sweep = sweep_lengths(tier);
     let seed = mix(base_seed, &[0xC07, g]);
     let mut r = Rng::new(seed);
-    let fills = ["random", "addr", "random", "zero", "ff", "addr", "ff-head", "ff-tail", "zero-head", "zero-tail", "holes", "lineends", "runs", "ff-head", "holes"];
+    let fills = ["random", "addr", "random", "zero", "ff", "addr", "ff-head", "ff-tail", "zero-head", "zero-tail", "holes", "lineends", "runs", "ff-head", "holes", "blank-block"];
     if (g as usize) < sweep.len() {
         let (len, w) = sweep[g as usize];
         return Scenario {
             engine: "hexio".into(),
             writer: w.into(),
             len,
-            fill: if len >= 65536 { ["addr", "addr", "holes", "ff-head", "ff-tail", "zero-head"][r.usize(6)].into() } else { fills[r.usize(fills.len())].into() },
+            fill: if len >= 65536 { ["addr", "addr", "holes", "ff-head", "ff-tail", "zero-head", "blank-block", "blank-block"][r.usize(8)].into() } else { fills[r.usize(fills.len())].into() },
             fill_seed: seed,
             pre_existing: if r.chance(1, 4) { len * 4 + 100 } else { 0 },
             pre_kind: String::new(),
